@@ -30,6 +30,9 @@ import (
 
 // ------------------------------------------------------------------------------------ //
 
+// The initial capacity of a query result, which grows as messages are found
+const defaultFrameSize = 128
+
 // SSD represents an SSD-optimized storage storage.
 type SSD struct {
 	retain uint32             // The configured TTL for 'retained' messages.
@@ -175,7 +178,13 @@ func (s *SSD) OnSurvey(surveyType string, payload []byte) ([]byte, bool) {
 
 // Lookup performs a against the storage.
 func (s *SSD) lookup(q lookupQuery) (matches message.Frame) {
-	matches = make(message.Frame, 0, q.Limit)
+	// The limit is provided by the client, do not let it size the buffer
+	capacity := q.Limit
+	if capacity < 0 || capacity > defaultFrameSize {
+		capacity = defaultFrameSize
+	}
+
+	matches = make(message.Frame, 0, capacity)
 	if err := s.db.View(func(tx *badger.Txn) error {
 		it := tx.NewIterator(badger.IteratorOptions{
 			PrefetchValues: false,
